@@ -316,7 +316,7 @@ func c10(c *an.Check) {
 
 func init() {
 	register(&Def{ID: "C10", Run: c10,
-		Explain:     "Decides on SSA: (R1) the multihash decoder succeeds only past both varints n>0 and remaining-length == declared length, and returns (first varint, exact suffix); IDFromBytes / IDB58Decode / confparse.ParsePeerID succeed only past it and return the validated bytes; ExtractPublicKey parses a key only past decode ok and code==identity, from the ID's own digest; IDFromPublicKey is the identity multihash of MarshalPublicKey(pk); MatchesPublicKey is equality with the re-derived ID; (MIRROR) encoder writes varint,varint,digest; (PANIC) every compiler-unproven bounds check, variable divisor, unchecked assertion or explicit panic in the ID codec functions is discharged by path facts or a reviewed reason. Generated codec sanity for package crypto; (OWNERSHIP) KeyPairFromStdKey returns a public key copied by std Public().",
+		Explain:     "Decides on SSA: (R1) the multihash decoder succeeds only past both varints n>0 and remaining-length == declared length, and returns (first varint, exact suffix); IDFromBytes / IDB58Decode / confparse.ParsePeerID succeed only past it and return the validated bytes; ExtractPublicKey parses a key only past decode ok and code==identity, from the ID's own digest; IDFromPublicKey is the identity multihash of MarshalPublicKey(pk); MatchesPublicKey is equality with the re-derived ID; (MIRROR) encoder writes varint,varint,digest; (PANIC) every compiler-unproven bounds check, variable divisor, unchecked assertion or explicit panic in the ID codec functions is discharged by path facts or a reviewed reason. Generated codec sanity for package crypto; (OWNERSHIP) KeyPairFromStdKey returns a public key copied by std Public(). (GATE) ID.ExtractPublicKey hands out a key only when the id re-derived from that key equals the receiver: non-minimal varints and protobuf re-encodings are ids of no key.",
 		NotCov:      "round-trip and injectivity as value statements (follow from the mirror + exact-length rule under the trusted varint/base58/protobuf codecs, not proved here).",
 		Assumptions: commonAssumptions})
 }
